@@ -349,6 +349,10 @@ class SymList:
         t = Seq(self._elem).unwrap(vs)
         return SymList(Box(z3.Concat(self.term, t)), self._elem)
 
+    def __radd__(self, vs):         # concrete list + symbolic list
+        t = Seq(self._elem).unwrap(vs)
+        return SymList(Box(z3.Concat(t, self.term)), self._elem)
+
     def insert(self, i, v):
         s = self.term
         n = self._len()
@@ -681,6 +685,8 @@ class SymDict:
         return iter(self._ordered_keys())
 
     def keys(self):
+        if not self._ty.ordered:
+            return self.keyset()        # unordered map (was OUT-OF-REACH): the key set as a snapshot
         return self._ordered_keys()
 
     def values(self):
